@@ -36,6 +36,7 @@ type refOut struct {
 	// for known-finding signatures
 	unprovenCulprit bool // the evidence names a validator whose signature(s) in the conflicting commit do not verify
 	forward         bool
+	wrongIndex      bool // duplicate-vote evidence whose only flaw is the (unsigned) validator index
 }
 
 func bid(b types.BlockID) *lib.BID {
@@ -156,6 +157,15 @@ func (w *world) refDVE(e *types.DuplicateVoteEvidence) refOut {
 	if val == nil {
 		return fail("not a validator at that height")
 	}
+	// The index is part of the evidence bytes (hence of its hash) but not of what the validator signed: unless it is
+	// pinned to the validator's position in the set of that height, one pair of signed votes yields as many distinct
+	// pieces of evidence as there are integers, and "committed before" / "never in two blocks" mean nothing.
+	for i, v := range vals.Validators {
+		if bytes.Equal(v.Address, a.ValidatorAddress) && (a.ValidatorIndex != int32(i) || b.ValidatorIndex != int32(i)) {
+			out.wrongIndex = true
+			return fail("validator index is not the validator's index in the set of that height")
+		}
+	}
 	if e.ValidatorPower != val.VotingPower {
 		return fail("validator power")
 	}
@@ -209,8 +219,6 @@ func (w *world) refLCA(e *types.LightClientAttackEvidence) refOut {
 		return fail("common height <= 0")
 	case H > CH:
 		return fail("common height above conflicting height")
-	case hdr.ChainID != w.chainID:
-		return fail("chain id")
 	case len(fvals.Validators) == 0 || fvals.Proposer == nil:
 		return fail("empty validator set")
 	case cm.Height != CH:
@@ -361,6 +369,13 @@ func (w *world) refLCA(e *types.LightClientAttackEvidence) refOut {
 		if ctally <= lib.SumPower(commonVals)/3 {
 			return fail("less than +1/3 of the common set signed the forged block")
 		}
+	}
+
+	// The signatures were verified as votes of THIS chain. A header that names another chain but was signed as a vote
+	// of this chain is misbehaviour here all the same, yet the light-block rules ask for the chain id to match: the spec
+	// does not decide. (A block signed FOR another chain never gets here: none of its signatures is a vote of this chain.)
+	if hdr.ChainID != w.chainID {
+		return ambig("header names another chain but is signed as a vote of this chain")
 	}
 
 	// a forward attack that the node cannot classify yet (see above): attribution is undecided as well
